@@ -840,7 +840,7 @@ def r5_reservations(program, rep):
     sg = stores(glo)
     DEF = ("attr", M, "chip_resources")
     L = ("elem", EXC)
-    ECELL = ("item", EXC, L)
+    ECELL = ("comp", ("elem", ("items", EXC)), 1)   # EXC[k], k over EXC
     okg = len(sg) == 2 and sorted(x[1:] for x in sg) == sorted(
         [(DEF, rar(DEF)), (ECELL, rar(ECELL))])
     if okg:
